@@ -64,6 +64,8 @@ type Explorer struct {
 	trivialOK    int
 	unknownFeas  int
 	rangeFacts   map[*Term][3]int64
+	failCount    int   // merge failures so far
+	failBase     []int // failCount at entry of each active region exploration
 	bseq         int // number of symbolic branches met so far on the current path (regions count once)
 }
 
@@ -701,7 +703,12 @@ func (m *Machine) branch(fr *frame, in *ssa.If, c *Term) bool {
 	}
 	// record that merging failed here, then fork
 	e.MergeFails++
-	e.noMergeIf[in] = true
+	e.failCount++
+	if n := len(e.failBase); n > 0 && e.failCount-e.failBase[n-1] >= 3 {
+		// several nested regions already failed to merge inside the enclosing
+		// exploration: give the enclosing region up as well (bounds re-exploration)
+		panic(mergeFail{"too many failed inner merges"})
+	}
 	e.pushConstraint(decision{cond: c, kind: 2, val: true, site: in, seq: myseq})
 	m.decide(c)
 	return false
@@ -732,6 +739,8 @@ func (m *Machine) mergeRegion(fr *frame, in *ssa.If, c *Term, join *ssa.BasicBlo
 	}
 	entrySerial := m.serial
 	seqAtEntry := e.bseq
+	e.failBase = append(e.failBase, e.failCount)
+	defer func() { e.failBase = e.failBase[:len(e.failBase)-1] }()
 	envSnap := copyEnv(fr.env)
 	defersSnap := len(fr.defers)
 	mark := len(m.trail)
